@@ -24,7 +24,8 @@ SgrParam(op) ==
 
 Enc(fn) ==
   LET f == fn.f  a == fn.a IN
-  CASE f = "Print" -> <<a[1]>>
+  CASE f = "Raw" -> a                          \* not a function: a literal piece of input (cuts inside sequences)
+    [] f = "Print" -> <<a[1]>>
     [] f = "Bs" -> <<8>> [] f = "Ht" -> <<9>> [] f = "Lf" -> <<10>> [] f = "Cr" -> <<13>>
     [] f = "So" -> <<14>> [] f = "Si" -> <<15>>
     [] f = "Nel" -> <<27, 69>> [] f = "Hts" -> <<27, 72>> [] f = "Ri" -> <<27, 77>>
@@ -50,5 +51,5 @@ Enc(fn) ==
     [] f = "Sgr" -> CSI7 \o JoinWith([i \in 1..Len(a) |-> SgrParam(a[i])], 59) \o <<109>>
 
 (* the lemma that ties function-level models to the character level             *)
-EncRoundTrip(fn) == Functions(InitP, Enc(fn)) = <<fn>>
+EncRoundTrip(fn) == fn.f = "Raw" \/ Functions(InitP, Enc(fn)) = <<fn>>
 =============================================================================
